@@ -69,8 +69,10 @@ func (l *Laplace) Fit(samples, weights []float64) {
 		// Need to copy variables so the input variables aren't effected by the sorting
 		sortedSamples = make([]float64, len(samples))
 		copy(sortedSamples, samples)
-		sortedWeights := make([]float64, len(samples))
-		copy(sortedWeights, weights)
+		if weights != nil {
+			sortedWeights = make([]float64, len(samples))
+			copy(sortedWeights, weights)
+		}
 
 		stat.SortWeighted(sortedSamples, sortedWeights)
 	}
